@@ -104,6 +104,19 @@ func multiPairScenario(c *vk.Case, kp string, concurrent, reorgs bool, minShare 
 		} else {
 			d = gen.Decl(r.Fork(), opts)
 		}
+		if r.Chance(1, 3) {
+			// the identity columns spelled out in table.columns (not under block): shovel still has to fill them
+			have := map[string]bool{}
+			for _, b := range d.Block {
+				have[b.Column] = true
+			}
+			for _, col := range []model.Column{{Name: "ig_name", Type: "text"}, {Name: "src_name", Type: "text"}, {Name: "block_num", Type: "numeric"}, {Name: "tx_idx", Type: "int"}} {
+				if !have[col.Name] {
+					d.ExtraCols = append(d.ExtraCols, col)
+				}
+			}
+			c.Obs("decls_with_declared_identity_columns", 1)
+		}
 		// attach to one or both sources
 		d.Sources = nil
 		for s := 0; s < nsrc; s++ {
